@@ -20,7 +20,15 @@ var Registry = map[string]func(*ev.Run){
 		r.Cov["transitions"] = r.Cov["transitions"].(int) + c["transitions"]
 		r.Cov["rule"] = "(1) every ordered pair (S,T) of the depth-bounded type alphabets is one converter interface, generated in isolation by the real pipeline under every setting vector with <=k deviations; (2) struct pairs under every field-level deviation operator (renamed, re-cased, twins, nested, behind pointers, dropped, methods, unexported) x target variants x placements x <=2 field-setting lines; real outcome vs three-valued model verdict; states = judged (pair|scenario, settings) combinations, transitions = model rule applications; non-trivial = model plan is not a bare basic copy"
 	},
-	"C01": RunRtPairs,
+	"C01": func(r *ev.Run) {
+		RunRtPairs(r)
+		for _, fam := range []string{"c05", "c06", "c07", "c08"} {
+			c := RunWorkers(r, fam, []string{pairTier(r)}, "")
+			r.Cov["family_"+fam+"_compiled_cases"] = c["compiled_cases"]
+			r.Cov["evaluations"] = r.Cov["evaluations"].(int) + c["compiled_cases"]
+			r.Cov["states"] = r.Cov["states"].(int) + c["compiled_cases"]
+		}
+	},
 	"C02": RunRtPairs,
 	"C04": RunRtPairs,
 	"C18": RunRtPairs,
@@ -32,6 +40,9 @@ var Registry = map[string]func(*ev.Run){
 	},
 	"C07": func(r *ev.Run) {
 		RunScenarioFamily(r, "c07", len(C07Scenarios(pairTier(r))), "fallible custom functions (fail iff the argument marker is negative) under every nesting path x wrapping mode {none, wrapErrors, wrapErrorsUsing with a recording package}; inputs within the value deviation bound give no fault, every single fault (k=1) and every pair of faults (k=2); oracle: error iff a failing element exists, error wraps the function's sentinel, reported location (all Wrap calls concatenated / parsed wrapErrors chain) leads to a failing element of the input")
+	},
+	"C08": func(r *ev.Run) {
+		RunScenarioFamily(r, "c08", len(C08Scenarios(pairTier(r))), "enum pairs over underlying {int,uint8,int64 beyond 2^53,uint64 near 2^64,string,float64} x member-set variants (same, renamed, extra source/target member, aliases on either side, prefixed) x enum:map / enum:transform regex / enum:unknown (each action, key, bad key, bad action; converter or method level) / enum no / enum:exclude x position (top, field, slice element, map value, map key); generation outcome vs model; accepted cases executed on every member value and on non-member values of the underlying domain")
 	},
 	"C13": func(r *ev.Run) { RunPairs(r, pairTier(r)) },
 }
@@ -52,6 +63,9 @@ var Workers = map[string]func(w *pool.W, shard, n int, args []string) error{
 	},
 	"c07": func(w *pool.W, shard, n int, args []string) error {
 		return ScenarioWorker(w, shardOf(C07Scenarios(args[0]), shard, n), args[0], true)
+	},
+	"c08": func(w *pool.W, shard, n int, args []string) error {
+		return ScenarioWorker(w, shardOf(C08Scenarios(args[0]), shard, n), args[0], true)
 	},
 	"pairs": func(w *pool.W, shard, n int, args []string) error { return PairWorker(w, shard, n, args[0]) },
 }
